@@ -13,6 +13,6 @@ CFG = {
     ],
     "assumptions": ["values are well-formed (vp_P): whole-second periods on the protobuf/JSON paths, thresholds and times within their integer types, known scheme, non-nil non-empty genesis seed, byte strings either nil or non-empty where the code tests for emptiness",
                     "stated normalisations: beacon id read back canonical, identity scheme supplied by the caller on the protobuf path, a key pair's public identity lives in its own file"],
-    "level_text": "The reflection theorem roundtrip_sound (Proofs/CodecProofs.v) is proved once; on every run the conversion functions of 15 mirror pairs (DBState, Group TOML/protobuf, Node, Identity, Pair, Share, DistPublic, chain Info protobuf/JSON, Beacon protobuf/JSON) are re-read from the sources and the per-pair obligations roundtrip_ok = true are re-checked by vm_compute, giving C20_roundtrip for ALL well-formed values; decode-side rejection of out-of-range thresholds / unknown schemes is proved from the generated check lists (two-sided on TOML; on protobuf only the lower bound exists: C20_decode_rejects_refuted/_partial). The model's denotation of the generated mirrors is compared with the real conversion functions, libraries, key-store files and dkg database on generated values over all 5 schemes.",
+    "level_text": "The reflection theorem roundtrip_sound (Proofs/CodecProofs.v) is proved once; on every run the conversion functions of 15 mirror pairs (DBState, Group TOML/protobuf, Node, Identity, Pair, Share, DistPublic, chain Info protobuf/JSON, Beacon protobuf/JSON) are re-read from the sources and the per-pair obligations roundtrip_ok = true are re-checked by vm_compute, giving C20_roundtrip for ALL well-formed values; decode-side rejection of out-of-range thresholds / unknown schemes is proved from the generated check lists (two-sided on TOML; on protobuf only the lower bound exists: C20_decode_rejects_refuted/_partial). The disk path is modelled as one register per file (C20_disk_last_written: for every history of saves, loads and resets a load returns the value written last) and histories with values growing and shrinking are replayed on the real key.NewFileStore. The model's denotation of the generated mirrors is compared with the real conversion functions, libraries, key-store files and dkg database on generated values over all 5 schemes.",
     "level_note": "Kernel + vm_compute; no axioms. Serialisation libraries, kyber encodings and time.Duration printing are assumed (and exercised on every run), not verified.",
 }
